@@ -392,11 +392,15 @@ func (env *specEnv) eval(ex ast.Expr) Value {
 	case *ast.IndexExpr:
 		// generic instantiation result_[T](k) handled in CallExpr
 		base := env.eval(n.X)
-		idx, _ := env.eval(n.Index).(*Term)
+		iv := env.eval(n.Index)
+		idx, _ := iv.(*Term)
 		if idx != nil && idx.Sort == BV8 {
 			idx = c.BV2Nat(idx)
 		}
 		bt := env.typeOf(n.X)
+		if idx == nil && repOf(bt) != RMap {
+			return poisonOf("index", iv)
+		}
 		switch b := base.(type) {
 		case SliceV:
 			el := bt.Underlying().(*types.Slice).Elem()
@@ -1064,6 +1068,21 @@ func (env *specEnv) evalCall(n *ast.CallExpr) Value {
 			base = env.old.alloc
 		}
 		return c.Sub(env.state().alloc, base)
+	case "rangeidxn_":
+		// $i(n): iterations completed of range loop n, as left at this point
+		tv := env.info.Types[n.Args[0]]
+		k, _ := constantInt(tv)
+		for _, li := range x.loops {
+			if li.ordinal == int(k) {
+				if cell, _ := x.rangeIndexOf(li, env.state()); cell != nil {
+					if v, ok := env.state().cells[cell].(*Term); ok {
+						return c.Add(v, c.IntC(1))
+					}
+				}
+			}
+		}
+		// the loop has not been reached on this path
+		return c.IntC(0)
 	case "rangeidx_":
 		if env.loop != nil {
 			if cell, _ := x.rangeIndexOf(env.loop, env.state()); cell != nil {
